@@ -401,7 +401,8 @@ class Xfrm(NetlinkProtocol):
         dst_selector = child_sa.tsr.get_network()
         src_port = child_sa.tsi.get_port()
         dst_port = child_sa.tsr.get_port()
-        ip_proto = child_sa.tsi.ip_proto
+        # a packet has one protocol and has to match both selectors: 'any' on one side is narrowed by the other side
+        ip_proto = child_sa.tsi.ip_proto or child_sa.tsr.ip_proto
         ipsec_proto = (socket.IPPROTO_ESP if child_sa.proposal.protocol_id == Proposal.Protocol.ESP
                        else socket.IPPROTO_AH)
 
